@@ -717,6 +717,10 @@ class Emitter:
     def emit_module(self, roots=None):
         mod = self.mod
         if roots:
+            roots = list(roots)
+            # the hook functions are called by code the translator inserts, not by the IR: keep them
+            if self.opts.get('hook_stores') and '@vf_on_write' in mod.funcs: roots.append('@vf_on_write')
+            if self.opts.get('hook_loads') and '@vf_on_read' in mod.funcs: roots.append('@vf_on_read')
             seen = self.reach(roots)
             funcs = [n for n in mod.funcs if n in seen]
         else:
@@ -1357,7 +1361,7 @@ NOTHROW_EXT = {'_ZNSt9exceptionD2Ev', '_ZNSt9exceptionD1Ev', '_ZNSt14overflow_er
                '_ZSt18_Rb_tree_incrementPKSt18_Rb_tree_node_base', '_ZSt18_Rb_tree_decrementPSt18_Rb_tree_node_base', '_ZSt18_Rb_tree_incrementPSt18_Rb_tree_node_base', '_ZSt18_Rb_tree_decrementPKSt18_Rb_tree_node_base', '_ZSt29_Rb_tree_insert_and_rebalancebPSt18_Rb_tree_node_baseS0_RS_', '_ZSt28_Rb_tree_rebalance_for_erasePSt18_Rb_tree_node_baseRS_',
                'malloc', 'free', 'realloc', 'memcpy', 'memmove', 'memset', 'memcmp', 'bcmp', 'strlen', '_ZdlPv', '_ZdlPvm', '_ZdaPv',
                '_ZnwmRKSt9nothrow_t', 'vf_nondet_u8', 'vf_nondet_u16', 'vf_nondet_u32', 'vf_nondet_u64', 'vf_assume', 'vf_assert',
-               'vf_note', 'vf_reach', 'vf_on_write', 'vf_on_read', 'vf_havoc', 'vf_heap_reset'}
+               'vf_note', 'vf_reach', 'vf_on_write', 'vf_on_read', 'vf_havoc', 'vf_heap_reset', 'vf_obs'}
 EXT_MAP = {'_ZNSt9exceptionD2Ev': 'vf_nop1', '_ZNSt9exceptionD1Ev': 'vf_nop1', '_ZNSt14overflow_errorD1Ev': 'vf_nop1', '_ZNSt12out_of_rangeD1Ev': 'vf_nop1', '_ZNSt13runtime_errorD2Ev': 'vf_nop1', '_ZNSt11logic_errorD2Ev': 'vf_nop1', '_ZNSt9bad_allocD1Ev': 'vf_nop1',
            '_ZNSt14overflow_errorC1EPKc': 'vf_nop2', '_ZNSt12out_of_rangeC1EPKc': 'vf_nop2', '_ZNSt12length_errorC1EPKc': 'vf_nop2', '_ZNSt9bad_allocC1Ev': 'vf_nop1',
            '_ZSt18_Rb_tree_incrementPKSt18_Rb_tree_node_base': 'vf_rb_inc', '_ZSt18_Rb_tree_decrementPSt18_Rb_tree_node_base': 'vf_rb_dec',
